@@ -48,8 +48,18 @@ package syncer
 // applying its predecessors; states[k] is the state after block k. Below it, every block has the
 // id of the header it was requested for. (The blocks then go to AddValidatedV2Blocks, which does
 // not validate again: C01.)
-//@ func (*Syncer).ban
+// ban: whatever state the connection is in (a peer that hangs up right after misbehaving has an
+// error set already), the address is reported to the peer store and the peer marked; callers see
+// no other effect (frame assumed: the strike counters are not read by any contract).
+//@ iface PeerStore.Ban
 //@   assigns nothing
+//@ extern net.SplitHostPort
+//@   assigns nothing
+//@ func (*Syncer).ban props C11
+//@   assigns nothing
+//@   frame assumed
+//@   requires s != nil && p != nil && s.pm != nil && s.log != nil && err != nil
+//@   ensures [reported] called("PeerStore.Ban") && calledBefore("setErr", "PeerStore.Ban")
 //@ iface PeerStore.UpdatePeerInfo
 //@   assigns nothing
 //@ func (*Peer).SendV2Blocks props C11
